@@ -420,6 +420,50 @@ def rule_r4(rep, repo):
     rep.floor("random draws on the construction path", n, 2)
 
 
+def rule_r6(rep, repo):
+    """Shell index table (value graphs): indices[i+1] = indices[i] + number of points appended for
+    shell i; one more entry than shells; shells generated in radial order."""
+    from gridlint.props.c07 import _loop_graph
+    G = repo.method("AtomGrid", "_generate_atomic_grid")
+    body = strip_docstring(G.node.body)
+    loop = next((s for s in body if isinstance(s, ast.For)), None)
+    cons = "atomgrid.AtomGrid._generate_atomic_grid"
+    where = repo.rel("atomgrid", loop)
+    if norm(loop.iter) != f"enumerate({G.params[1]})":
+        rep.violation("R6.shell-index-table", cons, "order", f"shells are generated over `{norm(loop.iter)}`, not in radial "
+                      f"order enumerate({G.params[1]})", where)
+    else:
+        rep.ok("R6.shell-index-table", "AtomGrid._generate_atomic_grid:order", where, norm(loop.iter))
+    vg, pre = _loop_graph(repo, "AtomGrid", G, loop, ["I", "DEG"])
+    I = ("sym", "I")
+    I1 = e5.mk_ac("+", [I, ("const", "1")])
+    tables = [k for k, v in vg.env.items() if k in pre and isinstance(v, tuple) and v and v[0] == "setitem" and v[2] == I1]
+    if len(tables) != 1:
+        raise AnalysisError("unrecognised idiom: _generate_atomic_grid keeps no index table updated at [i + 1]")
+    t = tables[0]
+    init = pre[t]
+    want_init = ("call", ("attr", ("glob", "np"), "zeros"),
+                 (e5.mk_ac("+", [("call", ("glob", "len"), (("sym", G.params[1]),), ()), ("const", "1")]),),
+                 (("dtype", ("glob", "int")),))
+    if init == want_init:
+        rep.ok("R6.shell-index-table", "AtomGrid._generate_atomic_grid:length", where, e5.show(init, 60))
+    else:
+        rep.violation("R6.shell-index-table", cons, "length",
+                      f"the shell index table is initialised as {e5.show(init, 80)}: it must be integer zeros with one "
+                      f"more entry than shells", where)
+    # appended points of this shell
+    apps = [e for e in vg.effects if e[0] == "append"]
+    val = vg.env[t][3]
+    prev = vg.env[t][1]
+    okk = any(val == e5.mk_ac("+", [("sub", prev, I), ("call", ("glob", "len"), (a[3],), ())]) for a in apps)
+    if okk:
+        rep.ok("R6.shell-index-table", "AtomGrid._generate_atomic_grid:cumulative", where, e5.show(val, 90))
+    else:
+        rep.violation("R6.shell-index-table", cons, "cumulative",
+                      f"entry i+1 of the shell index table is {e5.show(val, 110)}; it must be entry i plus the number of "
+                      f"points appended for shell i", where)
+
+
 def run(tier="quick", root="/repo", evidence_dir=None, quiet=False):
     rep = Report(PROP, tier, root, EXPLANATION, RULE, assumptions=[
         "npz member headers and the small integer/float preset tables are read as configuration tables "
@@ -432,5 +476,6 @@ def run(tier="quick", root="/repo", evidence_dir=None, quiet=False):
     rule_r2(rep, repo)
     rule_r3(rep, repo)
     rule_r4(rep, repo)
+    rule_r6(rep, repo)
     rep.extra["source_digest"] = repo.digest(["atomgrid", "angular"])
     return rep.finish(evidence_dir=evidence_dir, quiet=quiet)
